@@ -50,7 +50,7 @@ class View:
         t = M.peel(positional(t, self.env))
         if t.kind == "aggr" and re.search(r"ops::Range(Inclusive|From|To)?::Range", str(t.a)):
             return "%s[%s]" % (str(t.a).split("::")[-1], ", ".join(self.form(s) for s in t.sub))
-        return L.show(L.lin(self.prog, t, self.sym))
+        return L.show(L.lin(self.prog, t, lambda x: norm(M.render(x))))
 
     def arg(self, t, i):
         return self.form(self.pv.of_operand(t["args"][i])) if i < len(t["args"]) else "?"
@@ -82,6 +82,21 @@ class View:
                 rv = st["rv"]
                 val = self.pv.of_rvalue(rv)
                 out.append((bb, positional(base, self.env), self.form(val)))
+        return out
+
+    def stores(self):
+        """(bb, rendered target place, form of the value) for every assignment to a projected place."""
+        out = []
+        for bb, b in enumerate(self.f.blocks):
+            if b.get("cleanup"):
+                continue
+            for st in b["stmts"]:
+                if st["k"] != "assign":
+                    continue
+                pl = M.Place(st["pl"])
+                if pl.is_local():
+                    continue
+                out.append((bb, norm(M.render(positional(self.pv.of_place(pl), self.env))), self.form(self.pv.of_rvalue(st["rv"]))))
         return out
 
     def rooted_at(self, t, rx):
@@ -231,6 +246,71 @@ def check(ctx, rid):
         got = v.arg(tt, 1) if tt else "?"
         ob("%s:truncates-to-rest" % name, got == trunc and v.dominates(cb, tb), v.f, "truncate(%s) after f returned Ok" % got)
 
+    # ---- EqRange / EqSet ---------------------------------------------------
+    EQ = r"cmp::PartialEq(<.*>)?( for .*)?>::eq$|cmp::PartialEq::eq$"
+    v = view("essential_vm::pred::eq_range")
+    if v:
+        pushes = v.calls(r"stack::Stack::push$")
+        plw_b, plw = v.one(r"stack::Stack::pop_len_words$")
+        one = [(b_, t_) for b_, t_ in pushes if v.arg(t_, 1) == "1"]
+        atoms = [str(a) for a in C.conditions(prog, v.f, one[0][0])] if len(one) == 1 else []
+        ob("EqRange:length-0-is-equal", len(one) == 1 and any(re.match(r"^Eq\(0, essential_vm::stack::Stack::pop\(\w+\)\?\)$", a) for a in atoms) and not v.cfg.reaches(one[0][0], plw_b or 0), v.f,
+           "push(1) under %s, without comparing" % [a for a in atoms if a.startswith("Eq(")])
+        dbl = [(b_, t_) for b_, t_ in pushes if v.arg(t_, 1) == "2*pop($1)"]
+        ob("EqRange:takes-2*len-words", len(dbl) == 1 and plw is not None and v.dominates(dbl[0][0], plw_b) and len(v.calls(POPS)) == 1, v.f,
+           "pushes %s as the length word of pop_len_words: exactly the two ranges of `len` words are consumed" % [v.arg(t_, 1) for _, t_ in pushes])
+        res = [(b_, t_) for b_, t_ in pushes if v.rooted_at(_through_into(v.term(t_, 1)), r"stack::Stack::pop_len_words$") is not None]
+        ob("EqRange:pushes-the-comparison", len(res) == 1 and len(pushes) == 3 and v.dominates(plw_b, res[0][0]), v.f, "the third push is From<bool> of the closure's result")
+        for clo in prog.closures_of(v.f):
+            cv = View(prog, clo, closure_env(prog, v.f, clo))
+            sb, stt = cv.one(r"slice::<impl \[T\]>::split_at$")
+            if stt is None:
+                continue
+            ctx.saw(clo)
+            ob("EqRange:splits-the-2*len-words-at-len", cv.arg(stt, 0) == "$2" and cv.arg(stt, 1) == "pop($1)", clo, "split_at(%s, %s)" % (cv.arg(stt, 0), cv.arg(stt, 1)))
+            oks = [a_ for a_ in _alts(cv.pv.of_local(0)) if a_.kind == "aggr" and str(a_.a).endswith("Result::Ok")]
+            r_ = M.peel(oks[0].sub[0]) if len(oks) == 1 else None
+            sides = sorted(norm(M.render(positional(x, cv.env))) for x in r_.sub) if r_ is not None and r_.kind == "call" and re.search(EQ, r_.a) else []
+            ob("EqRange:compares-the-two-halves", len(sides) == 2 and sides[0].endswith(").0") and sides[1].endswith(").1") and sides[0][:-2] == sides[1][:-2] and "split_at(" in sides[0], clo,
+               "returns Ok(%s == %s)" % tuple(sides) if len(sides) == 2 else "returns %s" % (norm(M.render(r_))[:120] if r_ is not None else None))
+    v = view("essential_vm::pred::eq_set")
+    if v:
+        pb, pt = v.one(r"stack::Stack::push$")
+        ob("EqSet:pushes-the-comparison", pt is not None and v.rooted_at(_through_into(v.term(pt, 1)), r"stack::Stack::pop_len_words2$") is not None, v.f, "push(From<bool>(pop_len_words2(..)?))")
+        for clo in prog.closures_of(v.f):
+            cv = View(prog, clo, closure_env(prog, v.f, clo))
+            ctx.saw(clo)
+            oks = [a_ for a_ in _alts(cv.pv.of_local(0)) if a_.kind == "aggr" and str(a_.a).endswith("Result::Ok")]
+            r_ = M.peel(oks[0].sub[0]) if len(oks) == 1 else None
+            sides = sorted(norm(M.render(positional(x, cv.env))) for x in r_.sub) if r_ is not None and r_.kind == "call" and re.search(r"HashSet<T, S, A> as std::cmp::PartialEq>::eq$|BTreeSet<T, A> as std::cmp::PartialEq>::eq$", r_.a) else []
+            want = ["std::iter::Iterator::collect(essential_vm::sets::decode_set($2))?", "std::iter::Iterator::collect(essential_vm::sets::decode_set($3))?"]
+            ob("EqSet:compares-the-two-decoded-sets", sides == want, clo, "returns Ok(set equality of %s)" % sides)
+    v0 = view("essential_vm::sets::decode_set")
+    if v0:
+        clos = [c for c in prog.closures_of(v0.f) if c.parent == v0.f.path or c.path.count("{closure#") == 1]
+        c0 = [c for c in prog.closures_of(v0.f) if c.path == v0.f.path + "::{closure#0}"]
+        if ctx.anchor(rid, "decode_set iterator closure", c0):
+            cv = View(prog, c0[0], None)
+            ctx.saw(c0[0])
+            sb, stt = cv.one(r"slice::<impl \[T\]>::split_at$")
+            lb, lt = cv.one(r"slice::<impl \[T\]>::split_last$")
+            ab, at = cv.one(r"Result::and_then$")
+            ob("decode_set:item-length-is-the-top-word", at is not None and lt is not None and cv.arg(at, 0) == "slice::split_last(<env>.ws)?.0", c0[0], "length word %s" % (cv.arg(at, 0) if at else None))
+            ob("decode_set:item-is-the-tail-of-the-rest", stt is not None and cv.arg(stt, 0) == "slice::split_last(<env>.ws)?.1" and cv.rooted_at(cv.term(stt, 1), r"Result::and_then$") is not None, c0[0],
+               "split_at(%s, <index from and_then>)" % (cv.arg(stt, 0) if stt else None))
+            inner = [c for c in prog.closures_of(c0[0]) if c.path == c0[0].path + "::{closure#1}"]
+            if ctx.anchor(rid, "decode_set index closure", inner):
+                iv = View(prog, inner[0], closure_env(prog, c0[0], inner[0]))
+                ctx.saw(inner[0])
+                oks = _alts(iv.pv.of_local(0))
+                got = iv.form(oks[0]) if len(oks) == 1 else "?"
+                ob("decode_set:index=len(rest)-item_len", got == "-1*$2 + slice::len(slice::split_last(<env>.ws)?.1)", inner[0], "index %s" % got)
+            st = cv.stores()
+            ob("decode_set:continues-below-the-item", len(st) == 1 and st[0][1] == "<env>.ws" and re.match(r"^slice::split_at\(.*\)\.0$", st[0][2]) is not None, c0[0], "stores %s" % [(p_, v_[:60]) for _, p_, v_ in st])
+            rets = [a_ for a_ in _alts(cv.pv.of_local(0)) if a_.kind == "aggr" and str(a_.a).endswith("Option::Some")]
+            okret = [M.peel(a_.sub[0]) for a_ in rets if M.peel(a_.sub[0]).kind == "aggr" and str(M.peel(a_.sub[0]).a).endswith("Result::Ok")]
+            ob("decode_set:yields-the-item", len(okret) == 1 and re.match(r"^slice::split_at\(.*\)\.1$", cv.form(okret[0].sub[0])) is not None, c0[0], "yields Ok(%s)" % (cv.form(okret[0].sub[0])[:80] if okret else None))
+
     # ---- Memory ------------------------------------------------------------
     Mm = "essential_vm::memory::Memory::"
     v = view(Mm + "alloc")
@@ -315,6 +395,13 @@ def check(ctx, rid):
 
 def _alts(t):
     return list(t.sub) if t.kind == "phi" else [t]
+
+
+def _through_into(t):
+    t = M.peel(t)
+    if t.kind == "call" and re.search(r"convert::(Into|From)<.*>>::(into|from)$|::from$|::into$", t.a) and t.sub:
+        return t.sub[0]
+    return t
 
 
 def _through_to_vec(t):
